@@ -7,6 +7,7 @@
 
 #include <hgraph/runtime/executor.h>
 #include <hgraph/runtime/lifecycle_observer.h>
+#include <hgraph/runtime/node_scheduler.h>
 #include <hgraph/types/metadata/debug_descriptor.h>
 #include <hgraph/types/metadata/type_record_registry.h>
 #include <hgraph/types/time_series/ts_output.h>
@@ -1209,8 +1210,22 @@ bool evaluate_impl(const void *context, const GraphView &graph,
               // and would otherwise never wake the child for them.
               for (std::size_t index = state.evaluation_cursor + 1;
                    index < runtime.layout.node_count; ++index) {
-                const DateTime pending =
-                    graph_schedule(runtime, graph.data(), index);
+                DateTime pending = graph_schedule(runtime, graph.data(), index);
+                if (pending == evaluation_time) {
+                  // This node was due now and will not get its turn. Its
+                  // timer event for this cycle is lost with the cycle, but
+                  // the event must not stay at the head of the node's
+                  // scheduler, where it would hide every later one for ever:
+                  // consume it and re-arm the next.
+                  NodeView skipped =
+                      graph_node_view(runtime, graph.data(), index);
+                  if (skipped.has_scheduler()) {
+                    NodeScheduler{skipped.scheduler_state(),
+                                  skipped.graph_value(), index, evaluation_time}
+                        .advance();
+                    pending = graph_schedule(runtime, graph.data(), index);
+                  }
+                }
                 if (pending > evaluation_time &&
                     pending < state.next_scheduled_time) {
                   state.next_scheduled_time = pending;
